@@ -140,4 +140,22 @@ theorem glue_ops_listed : Dec.Gen.Api3.covered.map (·.1) =
      -- the four formatter impls, over the formatter as a parameter: `C14GenTextGlue`
      "display", "debug", "upperexp", "lowerexp"] := by decide +kernel
 
+/-! ## 6. The public constants, as the source writes them -/
+
+/-- the datum each `pub const … : d128` of d128.rs denotes: the twelve constants are canonical encodings of
+−1, +0, +1, ±qNaN, ±sNaN (payload 0), ±∞, 1E−33 (`EPSILON`), 1E−6143 (`MIN`, the least positive normal number) and
+(10^34 − 1)E+6111 (`MAX`) — scraped from the source on every run, evaluated by the kernel -/
+theorem constants_spec :
+    Dec.Gen.Api3.constants.map (fun p => (p.1, Dec.C06GenFromInt.bitsOf p.2)) =
+      [("MINUS_ONE", encode (.fin true 1 0)), ("ZERO", encode (.fin false 0 0)), ("ONE", encode (.fin false 1 0)),
+       ("NAN", encode (.nan false false 0)), ("NEG_NAN", encode (.nan true false 0)),
+       ("SNAN", encode (.nan false true 0)), ("NEG_SNAN", encode (.nan true true 0)),
+       ("INFINITY", encode (.inf false)), ("NEGATIVE_INFINITY", encode (.inf true)),
+       ("EPSILON", encode (.fin false 1 (-33))), ("MIN", encode (.fin false 1 (-6143))),
+       ("MAX", encode (.fin false (10^34 - 1) 6111))] := by decide +kernel
+
+/-- … and they are the values the specification judge expects of the `const` observations -/
+theorem constants_judged :
+    Dec.Gen.Api3.constants.map (fun p => (p.1, Dec.C06GenFromInt.bitsOf p.2)) = Dec.constTable := by decide +kernel
+
 end Dec.C15GenGlue
